@@ -106,6 +106,7 @@ func verifC01TickProgress() {
 		}
 	}
 	before := w.snap()
+	verifStepBegin()
 	a.getSelector().ContactCandidates() // nothing is selected: the agent is still converging
 	after := w.snap()
 	verifAssert(after.selected == nil, "a-tick-selects-nothing")
